@@ -104,9 +104,13 @@ Canon(f, p)  == Lookup(f, p).node
 (* The first candidate that exists is THE file; whatever it is.  If it       *)
 (* cannot be read as a file (it is a directory) the import fails there: it   *)
 (* is not skipped.  A dangling link does not exist.                          *)
+(* A program given as text on the command line (-e) or on standard input has *)
+(* no directory: for the imports it contains itself the search starts with   *)
+(* the -J directories; an absolute spelling is still taken as it is.         *)
+NoDir == <<"<none>">>
 Candidates(dir, jp, sp) ==
   IF IsAbs(sp) THEN <<sp>>
-  ELSE <<dir \o sp>> \o [i \in 1..Len(jp) |-> jp[Len(jp) + 1 - i] \o sp]
+  ELSE (IF dir = NoDir THEN <<>> ELSE <<dir \o sp>>) \o [i \in 1..Len(jp) |-> jp[Len(jp) + 1 - i] \o sp]
 
 RFail(why, p, n, i) == [ok |-> FALSE, why |-> why, path |-> p, node |-> n, idx |-> i]
 RECURSIVE FirstHit(_, _, _)
@@ -251,20 +255,27 @@ MFrame(n) == Frame("M", n, 1, <<>>, <<>>, "", 0, <<>>, FALSE)
 (* its eager statements, 0 = its lazy statement.  Relative spellings are    *)
 (* tried first against the directory of the path the owner was loaded by -  *)
 (* whichever way it was loaded.                                             *)
-WFrame(owner, slot, st) ==
-  Frame("W", owner, slot, DirOf(thisFile[owner]), st.sp, st.kind, st.chain, <<>>, FALSE)
-
 MainNode == Canon(fs, mainPath)
+(* family "virt": the text of the main file is handed over with -e (or on   *)
+(* standard input); it is known as <cmdline> and is not a file of the tree  *)
+Virtual == fam = "virt"
+VirtualName == <<"<cmdline>">>
+ImpDir(n) == IF Virtual /\ n = MainNode THEN NoDir ELSE DirOf(thisFile[n])
+WFrame(owner, slot, st) ==
+  Frame("W", owner, slot, ImpDir(owner), st.sp, st.kind, st.chain, <<>>, FALSE)
+
 HasTla == \E i \in 1..Len(opts) : opts[i].route = "tla"
 (* with top-level arguments the main file's own value is a function: what   *)
-(* becomes of that function when the file is reached again is not decided   *)
-MainIsFn(n) == HasTla /\ n = MainNode
+(* becomes of that function when the file is reached again is not decided;  *)
+(* nor is a virtual main program reached through the file that holds its    *)
+(* text (that file would be loaded as a file of its own)                    *)
+MainIsFn(n) == (HasTla \/ Virtual) /\ n = MainNode
 
 InitScenario(s) ==
   LET mainNode == Canon(s.fs, s.main) IN
   /\ fam = s.fam /\ fs = s.fs /\ jpaths = s.jp /\ mainPath = s.main /\ opts = s.opts
   /\ cache = (mainNode :> "loaded")
-  /\ thisFile = (mainNode :> s.main)
+  /\ thisFile = (mainNode :> IF s.fam = "virt" THEN <<"<cmdline>">> ELSE s.main)
   /\ loads = ConstFn(CodeNodes(s.fs), 0)
   /\ binds = <<>>
   /\ res = ConstFn(CodeNodes(s.fs), <<>>)
@@ -453,7 +464,7 @@ FollowLazy ==         \* `.lazy` on the file value: its hidden statement is now 
   /\ IF fs[Top.cur].lazy = <<>>
        THEN status' = "outside" /\ err' = Site("nofield") /\ UNCHANGED stack
        ELSE LET st == fs[Top.cur].lazy[1] IN
-            /\ stack' = ReplaceTop(stack, Frame("W", Top.cur, 0, DirOf(thisFile[Top.cur]), st.sp,
+            /\ stack' = ReplaceTop(stack, Frame("W", Top.cur, 0, ImpDir(Top.cur), st.sp,
                                                  st.kind, Top.left - 1 + st.chain, <<>>, FALSE))
             /\ UNCHANGED <<status, err>>
   /\ UNCHANGED <<scen, cache, loads, thisFile, binds, res, hist, hits>>
@@ -516,7 +527,7 @@ BindFirst ==
 (* the FIRST option (in binding order) that names it - whatever imports     *)
 (* reach it later, or earlier in evaluation order                           *)
 CodeFilePath ==
-  /\ thisFile[MainNode] = mainPath
+  /\ thisFile[MainNode] = IF Virtual THEN VirtualName ELSE mainPath
   /\ \A n \in DOMAIN cache : (n # MainNode /\ BoundTo(n) # {}) =>
         \E k \in 1..Len(opts) : /\ BindSeq(opts)[k] \in BoundTo(n)
                                 /\ thisFile[n] = opts[BindSeq(opts)[k]].path
@@ -537,7 +548,13 @@ StackBound == Len(stack) <= 40
 
 (* `hist` and `thisFile` only grow, so these are examined when the run ends  *)
 CachePaths ==   \* the recorded path of a cached file does lead to that file
-  \A n \in DOMAIN cache : LET w == Lookup(fs, thisFile[n]) IN w.ok /\ w.node = n
+  \A n \in DOMAIN cache : (Virtual /\ n = MainNode /\ thisFile[n] = VirtualName)
+                           \/ LET w == Lookup(fs, thisFile[n]) IN w.ok /\ w.node = n
+
+NoDirSearch ==  \* a program without a directory: its relative imports are answered by -J alone, the right-most first
+  \A h \in hist : (h.via = "import" /\ h.dir = NoDir /\ h.ok /\ ~IsAbs(h.sp)) =>
+       \E i \in 1..Len(jpaths) : /\ h.path = jpaths[i] \o h.sp /\ h.idx = Len(jpaths) + 1 - i
+                                  /\ \A k \in (i + 1)..Len(jpaths) : ~Exists(fs, jpaths[k] \o h.sp)
 
 BindPaths ==    \* the path of a bound option leads to the file it is bound to
   \A i \in DOMAIN binds : LET w == Lookup(fs, opts[i].path) IN w.ok /\ w.node = binds[i]
@@ -553,7 +570,7 @@ CmdNoSearch ==  \* a command-line path is taken as spelled: never an importer's 
 
 Inv == /\ LoadOnce /\ CacheDomains /\ EvalOnStack /\ LoadedState /\ BindFirst /\ CodeFilePath
        /\ Finished /\ ErrorSite /\ StackBound
-       /\ (status \notin {"bind", "run"}) => (CachePaths /\ BindPaths /\ Functional /\ SameFileSameNode /\ CmdNoSearch)
+       /\ (status \notin {"bind", "run"}) => (CachePaths /\ BindPaths /\ Functional /\ SameFileSameNode /\ CmdNoSearch /\ NoDirSearch)
 
 (* What is in the cache stays as it is: the path a file was loaded by, the  *)
 (* file an option is bound to and the evaluation count never change again.  *)
@@ -578,6 +595,12 @@ LawResolve(f, ds, js, ls, sps) ==
          /\ \A l \in ls :                    \* an earlier -J only matters if nothing later has it
               (r.why # "notfound") => Resolve(f, d, <<l>> \o j, sp) = r
          /\ Resolve(f, d, j, <<".">> \o sp).node = r.node              \* "./x" is "x"
+    /\ \A j \in js :                       \* no importer directory: exactly the search from a directory without sp
+         LET r == Resolve(f, NoDir, j, sp) IN
+         /\ IsAbs(sp) => r = Resolve(f, <<>>, <<>>, sp)
+         /\ ~IsAbs(sp) => /\ (r.why = "notfound") <=> (\A i \in 1..Len(j) : ~Exists(f, j[i] \o sp))
+                          /\ r.ok => \E i \in 1..Len(j) : r.path = j[i] \o sp
+                          /\ (j = <<>>) => ~r.ok /\ r.why = "notfound"
     /\ CmdResolve(f, sp) = Resolve(f, <<>>, <<>>, sp)   \* a command-line path: the working directory, no -J
     /\ \A j \in js : LET c == CmdResolve(f, sp) IN
          c.ok => (c.path = sp /\ Resolve(f, <<>>, j, sp) = c)
